@@ -8,13 +8,25 @@ import (
 	"fmt"
 	"os"
 	"path/filepath"
+	"runtime/pprof"
 	"strconv"
+	"time"
 
 	"iocvet/internal/core"
 	"iocvet/internal/rules"
 )
 
 func main() {
+	if pf := os.Getenv("IOCVET_HEAPPROF"); pf != "" {
+		// development aid: a heap profile after 40 s
+		go func() {
+			time.Sleep(40 * time.Second)
+			if f, err := os.Create(pf); err == nil {
+				pprof.WriteHeapProfile(f)
+				f.Close()
+			}
+		}()
+	}
 	repo := flag.String("repo", "/repo", "repository root")
 	verif := flag.String("verif", "/verif", "verification directory (evidence, known findings)")
 	tier := flag.String("tier", "quick", "quick|thorough")
